@@ -24,6 +24,8 @@ def main():
   seed = int(os.environ.get("VERIF_SEED", "0"))
   mod = importlib.import_module(f"checks.{a.pid.lower()}")
   try:
+    if a.only:
+      os.environ["WSYM_PARTIAL"] = "1"  # a debugging subset must not overwrite the property's evidence file
     rc = mod.main(a.tier, seed, only=a.only.split(",") if a.only else None)
   except Exception as ex:
     import traceback
